@@ -378,9 +378,14 @@ def expand_keys(names):
 
 
 def _havoc_key(ex, st, key):
+    from .engine import born_before
     ex.bump(st)
     sort = st.heap[key].sort() if key in st.heap else _key_sort(key)
     st.heap[key] = z3.Const(T.fresh_name("H!" + key), sort)
+    n1 = ex.advance_time(st)
+    bb = born_before(st.heap[key], n1)
+    if bb is not None:
+        st.born.append(bb)
 
 
 def _call_contract(ex, target, node, st, recv):
@@ -891,6 +896,9 @@ def _method(ex, f: ast.Attribute, node, st):
         if name == "replace":
             from .calendar import dt_replace
             return dt_replace(ex, base, node, st)
+    if ty is T.Str and name in ("lower", "upper", "strip"):
+        fn = z3.Function("str_" + name, z3.IntSort(), z3.IntSort())
+        return V(T.Str, [fn(base.t)])
     if isinstance(ty, T.Dict):
         if name == "get":
             kv = ex.ev(node.args[0], st)
@@ -906,7 +914,7 @@ def _method(ex, f: ast.Attribute, node, st):
         raise Unsupported(f"dict.{name}", node)
     if isinstance(ty, T.List):
         if name == "append":
-            ex.list_append(st, base, ex.ev(node.args[0], st))
+            ex.list_append(st, base, ex._ev_rhs(node.args[0], st, ty.t))
             return T.NONE
         if name == "sort":
             return _list_sort(ex, base, node, st)
